@@ -1,6 +1,6 @@
 (* Check/IoCheck.v -- correspondence and oracles for C01-C04 (TextGrid text I/O). *)
 From Coq Require Import String.
-From PraatIO Require Export Check.Common IO.IoModel IO.PrepSpec.
+From PraatIO Require Export Check.Common IO.IoModel IO.PrepSpec IO.DupNames.
 Open Scope Z_scope.
 
 (* as the source stands: point marks are un-doubled by the long-form reader *)
@@ -218,6 +218,8 @@ Inductive IOcase :=
 | ParseTextN (includeEmpty : bool) (data : text) (canon : list (text * text)) (out : res rtg)
 | RefRead (tab : numtab) (g : dtg) (data : text)            (* g = prepared data; data = text the implementation wrote *)
 (* what Textgrid.save wrote (or that it raised) for in-memory data g *)
+(* duplicate tier names on opening: names in file order, the names of the opened textgrid *)
+| DupNames (mode : dupmode) (names : list text) (out : res (list text))
 | RefSave (long blanks : bool) (mn mx : option Z) (thr : option (Z * Z)) (tab : numtab) (g : dtg) (out : res text).
 
 Fixpoint canon_lookup (tab : list (text * text)) (k : text) : text :=
@@ -239,6 +241,7 @@ Definition IOcorr (c : IOcase) : bool :=
       res_eqb rtg_eqb (do g <- parse_text POINT_MARK_UNDOUBLED ie data; Ok (canon_rtg tab g)) out
   | RefRead _ _ _ => true
   | RefSave lg b mn mx th tab g out => res_eqb text_eqb (save_text lg b mn mx th tab g) out
+  | DupNames m names out => res_eqb (list_eqb text_eqb) (open_names m names []) out
   end.
 
 Definition C04oracle (c : IOcase) : bool :=
@@ -265,6 +268,29 @@ Definition C02oracle (c : IOcase) : bool :=
           end
       | Err _, Err _ => true
       | _, _ => false
+      end
+  | _ => true
+  end.
+
+Fixpoint nodupb (l : list text) : bool :=
+  match l with [] => true | x :: l' => negb (name_mem x l') && nodupb l' end.
+
+(* a name that has not been handed out yet is kept as it is *)
+Fixpoint firsts_kept (used names out : list text) : bool :=
+  match names, out with
+  | n :: names', o :: out' => (if name_mem n used then true else text_eqb n o) && firsts_kept (o :: used) names' out'
+  | [], [] => true
+  | _, _ => false
+  end.
+
+(* C03, duplicate-name clause, written from the property text *)
+Definition C03oracle (c : IOcase) : bool :=
+  match c with
+  | DupNames m names out =>
+      match out with
+      | Ok o => nodupb o && (length o =? length names)%nat && firsts_kept [] names o
+                && (match m with DupError => nodupb names | DupRename => true end)
+      | Err e => match m with DupError => err_eqb e DuplicateTierName && negb (nodupb names) | DupRename => false end
       end
   | _ => true
   end.
